@@ -7,12 +7,7 @@ impl<'a> CwKey for &'a str { open spec fn key_path(&self) -> Seq<u8> { str_bytes
 // composite key: every element but the last is length-prefixed (src/keys.rs + src/path.rs)
 impl<'a, 'b> CwKey for (&'a Addr, &'b str) { open spec fn key_path(&self) -> Seq<u8> { lp(self.0.bytes()) + str_bytes(self.1@) } }
 
-// UTF-8 encoding facts (TRUSTED): injective; an ASCII string encodes to its own code points
-pub axiom fn axiom_str_bytes_inj(a: Seq<char>, b: Seq<char>)
-    ensures str_bytes(a) == str_bytes(b) ==> a == b;
-pub axiom fn axiom_str_bytes_ascii(s: Seq<char>)
-    requires forall|i: int| 0 <= i < s.len() ==> (s[i] as u32) < 128
-    ensures str_bytes(s).len() == s.len(), forall|i: int| 0 <= i < s.len() ==> str_bytes(s)[i] == s[i] as u8;
+// (axiom_str_bytes_inj / axiom_str_bytes_ascii live next to str_bytes in prelude/cw_plus.rs)
 // Addr::as_bytes is the UTF-8 encoding of the address text
 pub axiom fn axiom_addr_bytes(a: Addr)
     ensures a.bytes() == str_bytes(a.s@);
